@@ -124,7 +124,10 @@ def crc_constants():
     shape_ok = bool(re.search(r"i\s*<\s*256", body) and re.search(r"j\s*<\s*8", body)
                     and re.search(r"\(uint32\)\s*i\s*<<\s*24", body) and re.search(r"crc_table\s*\[\s*i\s*\]\s*=\s*s\s*;", body)
                     and re.search(r"\(s\s*<<\s*1\)\s*\^\s*\(s\s*>=\s*\(1U<<31\)\s*\?\s*CRC32_POLY\s*:\s*0\)", body))
-    return poly, shape_ok
+    # the repaired tree holds the table as a precomputed constant: extract it so that Lean can re-derive it
+    m = re.search(r"static\s+const\s+uint32\s+crc_table\s*\[\s*256\s*\]\s*=\s*\{(.*?)\};", vsrc, re.S)
+    table = [int(x, 16) for x in re.findall(r"0x[0-9a-fA-F]+", m.group(1))] if m else []
+    return poly, shape_ok, table
 
 
 def generate(variant="asan"):
@@ -141,7 +144,7 @@ def generate(variant="asan"):
             globs.append(dict(file=src, name=name, section=sec, size=size, writers=ws))
     globs.sort(key=lambda g: (g["file"], g["name"]))
     loaders, guarded = farray_inputs()
-    poly, shape_ok = crc_constants()
+    poly, shape_ok, crc_tab = crc_constants()
 
     L = []
     L.append("/-! GENERATED by tools/gen_globals.py from the object files of the %s build of /repo's working tree" % variant)
@@ -172,10 +175,12 @@ def generate(variant="asan"):
     L.append("def crc32Poly : Nat := 0x%08x" % poly)
     L.append("/-- crc32_init has the shape modelled by `Xmp.Reset.crcEntry` (256 entries, 8 shifts, start i<<24, unconditional store) -/")
     L.append("def crcInitShapeOk : Bool := %s" % ("true" if shape_ok else "false"))
+    L.append("/-- the precomputed `static const uint32 crc_table[256]` of src/loaders/vorbis.c ([] while it is still filled at run time) -/")
+    L.append("def crcTableConst : List Nat := [%s]" % ", ".join("0x%08x" % v for v in crc_tab))
     L.append("")
     L.append("end Xmp.Gen.Globals")
     vlib.write_if_changed(os.path.join(vlib.LEAN, "XmpModel", "Gen", "Globals.lean"), "\n".join(L) + "\n")
-    return dict(globals=globs, loaders=loaders, guarded=guarded, poly=poly, shape_ok=shape_ok)
+    return dict(globals=globs, loaders=loaders, guarded=guarded, poly=poly, shape_ok=shape_ok, crc_table=crc_tab)
 
 
 if __name__ == "__main__":
